@@ -12,6 +12,14 @@ CLAIMED = {
     "C01": ("All 19x19 scale pairs, all coefficient pairs, 9 integer types, operators/checked/by-ref/assign forms of + and -: "
             "outcome equals the exact sum at scale max(p,q) iff everything fits i128, else panic/None.", "2 C01"),
 }
+CLAIMED.update({
+    "C02": ("Mul/CheckedMul/MulAssign for Decimal x Decimal (sign-split, all 8 modes, zero/one short-cuts, wide 256-bit path through the "
+            "C16 kernel contracts) and Decimal x integer in both positions: result equals the exact or the singly rounded product, failure iff not representable.", "2 C02"),
+    "C05": ("round/checked_round for every scale, every n in i8 (quick: boundary + seeded subset), all 8 modes, all coefficients; "
+            "the rounding kernel i128_div_rounded against a declarative rounding relation with symbolic divisor.", "2 C05"),
+    "C16": ("Kernel obligations K0-K4 from the MIR: 128x128 multiply, 256/64 and 256/128 Knuth division for all 64 normalisation shifts "
+            "(merged-state encoding with proved stepping-stone lemmas), dispatch, floor fix-ups, rounded wide quotients for all modes and signs.", "2 C16"),
+})
 NA = {}
 
 def main():
